@@ -194,11 +194,15 @@ check("C09", "exploration",
       "256-wide shapes in quick). Values produced by operations: for BA3..BA7, BA20, Boolean, Gf3/9/20Bit, Fp31/32/61 the constants, "
       "every value (<= 512) or a boundary alphabet, and the results of not / neg / add / sub / mul and of truncate_from on integers "
       "up to u128::MAX are encoded: the type's own decoder must accept the bytes, return the same value, and equal values must have "
-      "equal bytes. distinct_nontrivial = distinct byte strings / fault placements / one-hot matrices / operation results executed.",
+      "equal bytes. distinct_nontrivial = distinct byte strings / fault placements / one-hot matrices / operation results executed. Proof batches: a ProofBatch of every legal depth (1..14 proofs) through the real channel type to the left neighbour and back from the right one, non-canonical elements in used slots rejected. Reports: info sections and encrypted records of both report kinds, exact and followed by 1..3 extra bytes - accepted only if re-encoding reproduces the bytes.",
       [{"name": "encodings", "config": "A", "test": "verif::c09::run",
         "require": {"any": {"distinct:exhaustive_types": 15, "distinct:transposes": 20}}},
        {"name": "ops", "config": "A", "test": "verif::c09o::run",
-        "require": {"any": {"op_result_encodings": 100000, "distinct:op_types": 10}}}],
+        "require": {"any": {"op_result_encodings": 100000, "distinct:op_types": 10}}},
+       {"name": "proofs", "config": "A", "test": "protocol::ipa_prf::verif::c09p::run",
+        "require": {"any": {"proof_batch_depths": 10, "proof_batch_noncanonical": 20}}},
+       {"name": "reports-canonical", "config": "A", "test": "verif::c10::run_canonical_reports",
+        "require": {"any": {"report_canonical_cases": 60}}}],
       assumptions=[
                    "transposes are linear over GF(2): one-hot inputs form a basis (non-linear corruption would need a two-hot input)"],
       exhaustive=True, engine="E5 domain",
